@@ -250,6 +250,32 @@ def bfs_histories(depth, pool=POOL):
     return rec([], RefList(), depth)
 
 
+#: BFS pool with duplicates ('{a}' three times: unparsed, and two positioned twin objects),
+#: a bracket group, whitespace and a string with mismatched delimiters.
+POOL_TWINS = [S_A, 'g@3:' + S_A, 'g@7:' + S_A, S_B, S_WS, S_BAD]
+#: small pool for deeper exploration: unparsed '{a}', its twin object, the mismatched string.
+POOL_SMALL = [S_A, 'g@7:' + S_A, S_BAD]
+
+
+def bfs_extend(prefix, rest, pool=POOL):
+    """ALL histories that extend `prefix` by exactly `rest` operations (same alphabet as
+    `bfs_histories`, which is `bfs_extend([], depth)`)."""
+    common.impl()
+    ref = RefList()
+    for op in prefix:
+        _apply(ref, op, lambda r: '')
+
+    def rec(pre, ref, d):
+        if d == 0:
+            yield pre
+            return
+        for op in ops_at(len(ref), pool):
+            r2 = ref.copy()
+            _apply(r2, op, lambda r: '')
+            yield from rec(pre + [op], r2, d - 1)
+    return rec(list(prefix), ref, rest)
+
+
 RANDOM_ITEMS = [enc(s) for s in ('{a}', '{a}', '[b]', '{}', '[]', '[a]', '{[b]}', ' ', '\n\t', '',
                                  '{x]', '[', '}', '[x]{y}', 'a', ' {a}', '{a} ', '[]]', '\\c')] + \
                ['g:' + enc('{a}'), 'g@3:' + enc('{a}'), 'g@7:' + enc('{a}'), 'g:' + enc('[b]'),
